@@ -1,6 +1,6 @@
 SPECIFICATION Spec
 CONSTANTS
-  Bug = "none"
+  Bug = "floor_division"
   MaxN = 200
   MaxD = 8
   ExtraB = 3
